@@ -417,6 +417,14 @@ impl<CharIter: Iterator<Item = char>> Lexer<CharIter> {
             .or_else(|_| located_error!(SyntaxError::UnrecognizedToken, Some(self.location)))
     }
 
+    // a decimal literal without digits (`1e`, `-.`, `1.e`) is a syntax error
+    fn real_token(&self, literal: String) -> Result<Option<TokenData>> {
+        match literal.parse::<f64>() {
+            Ok(_) => Ok(Some(TokenData::Primitive(Primitive::Real(literal)))),
+            Err(_) => located_error!(SyntaxError::UnrecognizedToken, Some(self.location)),
+        }
+    }
+
     fn number(&mut self) -> Result<Option<TokenData>> {
         match self.current.take() {
             Some(c) => {
@@ -429,15 +437,11 @@ impl<CharIter: Iterator<Item = char>> Lexer<CharIter> {
                             '0'..='9' => self.digital10(&mut number_literal)?,
                             'e' => {
                                 self.number_suffix(&mut number_literal)?;
-                                break Ok(Some(TokenData::Primitive(Primitive::Real(
-                                    number_literal,
-                                ))));
+                                break self.real_token(number_literal);
                             }
                             '.' => {
                                 self.real(&mut number_literal)?;
-                                break Ok(Some(TokenData::Primitive(Primitive::Real(
-                                    number_literal,
-                                ))));
+                                break self.real_token(number_literal);
                             }
                             '/' => {
                                 let mut denominator = String::new();
